@@ -4,7 +4,7 @@
                packet counts depend on the scheduler, the model's bound dominates what it did);
    spec_case : what the implementation did satisfies the property's specification, judged
                without the model. *)
-From Sdns Require Export Common.Base Gen.C12 C12.Model C12.Skeleton.
+From Sdns Require Export Common.Base Gen.C12 C12.Model C12.ModelDS C12.Skeleton.
 Open Scope N_scope.
 
 Inductive case :=
@@ -41,8 +41,17 @@ Inductive case :=
      carries (queryerDepthKey, best-effort mark, cnameChaseDepthKey, contextKeyDnameDepth, contextKeyNSL) and the
      counters; EvE: it returned.  [treechk]: the sub-runs of this topology are sequential (no detached IPv6 walk).
      [pairs]: for every sub-run the label of the run it was started from (the probe hands its identity down the context;
-     None: no probe above it — a detached job) and its own label *)
-| CaseTrace (mode max_out max_int : N) (v6 treechk : bool) (evs : list event) (pairs : list (option slabel * slabel))
+     None: no probe above it and no known spawner — a detached job) and its own label.
+     [gens]: for every sub-run, in the order of [pairs], its generation as the observer reconstructs it from who started
+     whom: a run started through the Queryer has its parent's generation, a run started by a detached job has the
+     generation of the run that spawned the job (named by the request id the job carries) plus one *)
+| CaseTrace (mode max_out max_int : N) (v6 treechk : bool) (evs : list event) (pairs : list (option slabel * slabel)) (gens : list nat)
+  (* the DS step of verifyDNSSEC (dnssec.VerifyDSWithWork, then DSMatchedKeys) under the real work adapter: DS records
+     (supported, digest decodes, usable candidates (key id, matches)) and the visiting order of the keys, in processing
+     order; verdict of the first phase 0 ok / 1 work error of [ekind] / 2 ordinary failure / 3 unsupported only; the keys
+     the second phase confirmed; the ledger's DS-digest counter, exhaustion bits (candidates, digests), first rejection *)
+| CaseDS (mode K D : N) (dsl : list (bool * bool * list (nat * bool))) (korder : list nat) (ordered : bool)
+         (verdict ekind : N) (matched : list nat) (digests exh first : N)
   (* the forwarder against scripted upstreams, one behaviour per configured upstream in order — 0: answers; 1: TC=1 over
      UDP, answers over TCP; 2: TC=1 over UDP, SERVFAIL over TCP; 3: SERVFAIL —: datagrams + TCP queries the upstreams
      received, the ledger's outbound counter, the reply (0 answer / 1 policy SERVFAIL with the work EDE / 2 plain SERVFAIL) *)
@@ -126,16 +135,20 @@ Definition check_case (c : case) : bool :=
       (negb ((mode =? mode_enforce) && negb (first =? 0)) ||
        ((rcode =? rcode_servfail) &&
         (negb edns || (ede =? 1 + (if go_RecursionWorkKind_isDNSSEC (first - 1) then 9 else ede_other)))))
-  | CaseTrace mode max_out max_int v6 treechk evs pairs =>
+  | CaseTrace mode max_out max_int v6 treechk evs pairs gens =>
       (* the real event sequence passes the checkers every trace of the skeleton passes
-         (budgets_hold_at_every_step, subquery_call_tree, subquery_pairs) *)
+         (budgets_hold_at_every_step, subquery_call_tree, subquery_pairs, detached_generations_at_most_one) *)
       ((mode =? mode_off) || steps_ok (mode =? mode_enforce) max_out max_int 0 0 0 0 evs) &&
       forallb (pair_ok v6) pairs &&
+      (* who started whom agrees with the walk mark: generation 1 exactly inside a walk, 0 outside *)
+      list_eqb Nat.eqb gens (map (fun pc => mark_gen (snd pc)) pairs) &&
       (negb treechk ||
-       match tree_run v6 (mk_sl 0 cx0) [] evs with
-       | Some (mk_sl O (mk_cx false O O false), []) => true
-       | _ => false
-       end)
+       (match tree_run v6 (mk_sl 0 cx0) [] evs with
+        | Some (mk_sl O (mk_cx false O O false false), []) => true
+        | _ => false
+        end && forallb (fun g => (g <=? 1)%nat) (gens_of false 0 [] evs)))
+  | CaseDS mode K D dsl korder ordered verdict ekind matched digests exh first =>
+      ds_check mode K D dsl korder ordered verdict ekind matched digests exh first
   | CaseFwd mode max_out script packets led_out reply =>
       (* the forwarder is sequential: the model computes exactly what the upstreams received and what the client got *)
       let pol := mk_T_RecursionWorkPolicy mode max_out 32 4 8 32 32 32 32 in
@@ -226,7 +239,12 @@ Definition spec_case (c : case) : bool :=
         ((first =? 0) ||
          ((rcode =? 2) && (negb edns || negb (ede =? 0)) &&
           (negb resolvable || negb (ede2 =? 1 + 13))))))
-  | CaseTrace mode max_out max_int v6 treechk evs pairs =>
+  | CaseDS mode K D dsl korder ordered verdict ekind matched digests exh first =>
+      ds_spec mode K D dsl korder ordered verdict ekind matched digests exh first
+  | CaseTrace mode max_out max_int v6 treechk evs pairs gens =>
+      (* one generation of detached helper lookups per client query: no sub-run was started, directly or through
+         further sub-runs, by a detached job that was itself started from inside a detached job *)
+      forallb (fun g => (g <=? 1)%nat) gens &&
       (* enforce: no more upstream arrivals than the outbound budget, no more sub-pipeline runs than the
          internal budget; in every mode no sub-run nests deeper than 32, chases deeper than 10 or follows
          DNAMEs deeper than 10 (the numbers of the property text) *)
@@ -234,7 +252,7 @@ Definition spec_case (c : case) : bool :=
       let ss := N.of_nat (length (filter (fun e => match e with EvS _ _ _ => true | _ => false end) evs)) in
       (negb (mode =? 2) || ((xs <=? max_out) && (ss <=? max_int))) &&
       forallb (fun e => match e with
-                        | EvS (mk_sl n (mk_cx _ ch dn _)) _ _ | EvS (mk_dl n (mk_cx _ ch dn _)) _ _ =>
+                        | EvS (mk_sl n (mk_cx _ ch dn _ _)) _ _ | EvS (mk_dl n (mk_cx _ ch dn _ _)) _ _ =>
                             (n <=? 32)%nat && (ch <=? 10)%nat && (dn <=? 10)%nat
                         | _ => true
                         end) evs
